@@ -169,6 +169,9 @@ C.load_known_findings = _load_known
 
 
 # ----------------------------------------------------------------------------- generators
+# Every distinct (operation lambda, element type, mode, clamped tile size, clamped tile iterations) is one JIT-compiled
+# kernel (~3 s of CPU on this machine), so the generators draw the kernel-determining choices from small menus and
+# spend their randomness on what is a run-time argument: lengths, contents, captured constants, range bounds.
 def csv(xs):
     return ",".join(str(x) for x in xs) if xs else "-"
 
@@ -177,43 +180,63 @@ def rcontents(rng, n, lo=-9, hi=9):
     return [rng.randint(lo, hi) for _ in range(n)]
 
 
-def grid_lengths(ts, ti, rng, tier):
-    T = ts * ti
-    B = T * ti
-    base = {0, 1, 2, ts - 1, ts, ts + 1, T - 1, T, T + 1, B - 1, B, B + 1, 2 * B - 1, 2 * B, 2 * B + 1, 3 * B + ts}
-    base = set(x for x in base if 0 <= x <= 700)
-    if tier == "quick":
-        base |= set(rng.sample(range(0, 68), 6))
-    else:
-        base |= set(range(0, 68))
-        base |= set(rng.sample(range(68, 1500), 6))
-    return sorted(base)
-
-
-def grid_cases(rng, tier):
-    """coverage of the map template: forEach visit counts (and, on the boundary lengths, map / every / findIndex by index)"""
-    if tier == "quick":
-        TS, TI = [1, 2, 3, 4, 7, 16], [1, 2, 3, 5]
-    else:
-        TS, TI = [1, 2, 3, 4, 5, 7, 8, 16, 33, 64, 100], [1, 2, 3, 4, 5, 8, 17]
+def interleave(groups):
+    """round-robin over lists: neighbouring cases use different kernels, so parallel workers compile different ones"""
     out = []
-    for ts in TS:
-        for ti in TI:
-            lens = grid_lengths(ts, ti, rng, tier)
-            rich = set(rng.sample(lens, min(len(lens), 3 if tier == "quick" else 8)))
-            for n in lens:
-                mode = "S" if (tier == "quick" and rng.random() < 0.85) or rng.random() < 0.6 else "O"
-                xs = rcontents(rng, n)
-                ops = ["fc"]
-                if n in rich:
-                    k = rng.randrange(n) if n else 0
-                    ops += ["mp:x1_3", "ev:vl%d" % rng.choice([10, 10, 5]), "fi:ie%d" % k, "mt:l2_1:%d" % max(1, n + rng.choice([-1, 0, 2]))]
-                arr = csv(xs) if n else rng.choice(["-", "~"])
-                out.append("A %s %s %d %d %s %s" % (mode, rng.choice("il"), ts, ti, arr, " ".join(ops)))
+    k = 0
+    while any(groups):
+        g = groups[k % len(groups)]
+        if g:
+            out.append(g.pop(0))
+        k += 1
     return out
 
 
-def safe_fi(rng, xs, serial):
+def grid_cases(rng, tier):
+    """coverage of the map template: forEach visit counts for every length 0..67 (and the lengths around ts, ts*ti,
+    ts*ti*ti beyond) under every (tile size, tile iterations) pair; the clamped settings of short arrays coincide, so
+    the grid costs few kernels"""
+    if tier == "quick":
+        TS, TI = [1, 2, 3, 4, 7, 16], [1, 2, 3, 5]
+        lens67 = list(range(0, 68))
+    else:
+        TS, TI = [1, 2, 3, 4, 5, 7, 8, 16, 33, 64, 100], [1, 2, 3, 4, 5, 8, 17]
+        lens67 = list(range(0, 68))
+    groups = []
+    for ts in TS:
+        for ti in TI:
+            T, B = ts * ti, ts * ti * ti
+            extra = set(x for x in (T - 1, T, T + 1, B - 1, B, B + 1, 2 * B - 1, 2 * B + 1, 3 * B + ts) if 67 < x <= 2500)
+            if tier != "quick":
+                extra |= set(rng.sample(range(68, 1500), 3))
+            g = []
+            for n in lens67 + sorted(extra):
+                xs = rcontents(rng, n)
+                arr = csv(xs) if n else rng.choice(["-", "~"])
+                g.append("A S i %d %d %s fc" % (ts, ti, arr))
+            groups.append(g)
+    out = interleave(groups)
+    # the other map-style kernels, long elements and OpenMP on a few settings (each line: new kernels)
+    rich = [(2, 2), (4, 3)] if tier == "quick" else [(ts, ti) for ts in (1, 2, 4, 7, 16, 64) for ti in (1, 2, 3, 5)]
+    for (ts, ti) in rich:
+        for n in ([ts * ti * ti + 1, 67] if tier == "quick" else [1, ts, ts * ti + 1, ts * ti * ti + 1, 67, 200]):
+            xs = rcontents(rng, n)
+            k = rng.randrange(n)
+            out.append("A S i %d %d %s fc mp:x1_3 ev:vl%d fi:ie%d so:ve%d mt:l2_1:%d" % (
+                ts, ti, csv(xs), rng.choice([10, 10, 5]), k, rng.randint(-9, 9), max(1, n + rng.choice([-1, 0, 2]))))
+    alt = [("O", "i", 3, 2), ("S", "l", 4, 3)] if tier == "quick" else \
+          [(m, t, ts, ti) for m in "SO" for t in "il" for (ts, ti) in ((1, 1), (3, 2), (4, 3), (16, 5))]
+    for (mode, ty, ts, ti) in alt:
+        B = ts * ti * ti
+        for n in sorted(set([0, 1, ts, ts * ti, B, B + 1, 2 * B + 1, 67] + rng.sample(range(0, 68), 4 if tier == "quick" else 12))):
+            if n < ts * ti and tier == "quick" and n != 0:
+                continue                   # a clamped setting: another kernel
+            xs = rcontents(rng, n)
+            out.append("A %s %s %d %d %s fc mp:x1_3" % (mode, ty, ts, ti, csv(xs) if n else "~"))
+    return out
+
+
+def safe_fi(rng, xs):
     """a findIndex token with at most one match"""
     n = len(xs)
     for _ in range(8):
@@ -241,19 +264,36 @@ def rmapf(rng):
     return "nx"
 
 
-def array_ops(rng, xs, count, empty_kind):
-    n = len(xs)
+def array_ops(rng, xs, count, empty_kind, core):
+    """core: only the operations whose kernels the quick tier builds for the non-default element type / mode / tile"""
     ops = []
     cur = list(xs)
     for _ in range(count):
         n = len(cur)
         x = rng.random()
+        if core:
+            y = rng.random()
+            if y < 0.2:
+                ops.append("ev:vl%d" % rng.randint(-10, 12))
+            elif y < 0.35:
+                ops.append("fi:ie%d" % rng.randint(-1, n))
+            elif y < 0.5:
+                ops.append("fc")
+            elif y < 0.65:
+                ops.append("mp:x%d_%d" % (rng.randint(-3, 3), rng.randint(-2, 2)))
+            elif y < 0.8:
+                ops.append("rd:sum:2:0")
+            elif y < 0.9:
+                ops.append("rd:min:2:0" if n else "len")
+            else:
+                ops.append("mx" if n else "len")
+            continue
         if x < 0.08:
             ops.append("ev:" + rpred(rng))
         elif x < 0.14:
             ops.append("so:" + rpred(rng))
         elif x < 0.20:
-            ops.append(safe_fi(rng, cur, True))
+            ops.append(safe_fi(rng, cur))
         elif x < 0.24:
             ops.append("fc")
         elif x < 0.30:
@@ -264,7 +304,7 @@ def array_ops(rng, xs, count, empty_kind):
         elif x < 0.35:
             g = rmapf(rng)
             if g == "nx":
-                m = max(1, n + rng.choice([0, 0, 3]))        # the three-argument overload (fixes/C23-4): never shrink below n
+                m = max(1, n + rng.choice([0, 0, 3]))        # the three-argument overload (fixes/C23-4): never below n
                 if n == 0:
                     g = "l1_0"
             else:
@@ -274,18 +314,18 @@ def array_ops(rng, xs, count, empty_kind):
             k = rng.choice(KINDS)
             if n == 0 and k in ("band", "land", "min", "max") and rng.random() < 0.7:
                 k = "sum"
-            ops.append("rd:%s:%d:%d" % (k, rng.choice([2, 2, 3, 4]), rng.randint(-9, 9)))
+            ar = 2 if k not in ("sum", "min") else rng.choice([2, 3, 4])     # arities 3 and 4: once per builder is enough
+            ops.append("rd:%s:%d:%d" % (k, ar, rng.randint(-9, 9)))
         elif x < 0.62:
+            # localInit becomes a compile-time define: identities, or a second fixed value for the idempotent kinds
             k = rng.choice(KINDS)
-            if k in NONIDEM:
-                init = IDENT[k]
-            else:
-                init = rng.choice([IDENT.get(k, 0), rng.randint(-20, 20)]) if k not in ("lor", "land") else rng.choice([0, 1])
+            init = IDENT[k] if k in IDENT and (k in NONIDEM or rng.random() < 0.6) else {"min": 7, "max": -7, "bor": 4, "band": 6, "lor": 1, "land": 0}[k]
             ops.append("ri:%s:%d:%d" % (k, rng.randint(-9, 9), init))
         elif x < 0.66:
-            ops.append(rng.choice(["mx", "mn"]))
+            ops.append(rng.choice(["mx", "mn"]) if n else "len")
         elif x < 0.72:
-            ops.append("%s:%d" % (rng.choice(["io", "li", "in"]), rng.randint(-10, 10)))
+            # indexOf compiles its localInit (= the length) into the kernel: only on the lengths of LENS_IO
+            ops.append("%s:%d" % (rng.choice(["io", "li", "in"]) if n in LENS_IO else rng.choice(["li", "in"]), rng.randint(-10, 10)))
         elif x < 0.75:
             ops.append("dp:" + csv(rcontents(rng, n)) if n else "len")
         elif x < 0.80:
@@ -314,57 +354,85 @@ def array_ops(rng, xs, count, empty_kind):
                     if not cur:
                         empty_kind = "~"
             else:
-                if valid and n == 0 and (c in (-1, 0)):
-                    ops.append("len")          # concat of two empty arrays
-                else:
-                    ops.append("cc:%d_%d" % (o, c))
+                ops.append("cc:%d_%d" % (o, c))
         else:
             ops.append("len")
     return ops
 
 
+LENS_IO = (0, 1, 3, 17, 67, 128, 300)
+
+
 def array_cases(rng, tier):
     out = []
-    lens = [0, 0, 1, 1, 2, 3, 5, 17, 64, 67, 127, 128, 129, 255, 256, 257, 300, 1000]
+    lens = [0, 0, 1, 1, 2, 3, 3, 5, 17, 17, 64, 67, 67, 127, 128, 128, 129, 255, 256, 257, 300, 300, 1000]
     big = [1025, 4097, 5000]
-    tiles = [(0, 0), (0, 0), (1, 1), (4, 1), (3, 2), (16, 3), (64, 2), (7, 5), (-1, 3), (5, -2), (1000, 1)]
-    nc = 44 if tier == "quick" else 1500
+    nc = 20 if tier == "quick" else 450
     for k in range(nc):
         n = rng.choice(lens) if rng.random() < (0.97 if tier == "quick" else 0.9) else rng.choice(big)
         if tier != "quick" and rng.random() < 0.3:
             n = rng.randint(0, 700)
-        ts, ti = rng.choice(tiles)
-        mode = "S" if rng.random() < 0.7 else "O"
+        x = rng.random()
+        if tier == "quick":
+            # the full operation menu on (int, Serial, default tile); core operations elsewhere
+            if x < 0.76:
+                mode, ty, ts, ti, core = "S", "i", 0, 0, False
+            elif x < 0.84:
+                mode, ty, ts, ti, core = "S", "i", 4, 2, True
+                n = max(n, 8)
+            elif x < 0.92:
+                mode, ty, ts, ti, core = "S", "l", 0, 0, True
+            else:
+                mode, ty, ts, ti, core = "O", "i", 0, 0, True
+        else:
+            mode = "S" if x < 0.7 else "O"
+            ty = rng.choice("iiil")
+            ts, ti = rng.choice([(0, 0), (0, 0), (0, 0), (1, 1), (4, 2), (16, 3), (-1, 3), (1000, 1)])
+            core = not (ty == "i" and mode == "S" and (ts, ti) in ((0, 0), (1, 1))) and rng.random() < 0.85
         xs = rcontents(rng, n, -9, 9) if rng.random() < 0.8 else rcontents(rng, n, -2, 2)
         ek = rng.choice(["-", "~"])
         arr = csv(xs) if n else ek
-        ops = array_ops(rng, xs, rng.randint(4, 9) if tier == "quick" else rng.randint(4, 14), ek if n == 0 else "x")
-        out.append("A %s %s %d %d %s %s" % (mode, rng.choice("il"), ts, ti, arr, " ".join(ops)))
+        ops = array_ops(rng, xs, rng.randint(5, 10) if tier == "quick" else rng.randint(4, 14), ek if n == 0 else "x", core)
+        out.append("A %s %s %d %d %s %s" % (mode, ty, ts, ti, arr, " ".join(ops)))
     return out
 
 
 def range_cases(rng, tier):
     out = []
-    nc = 36 if tier == "quick" else 1200
-    tiles = [(0, 0), (0, 0), (2, 2), (4, 3), (16, 1), (3, 5)]
+    nc = 18 if tier == "quick" else 350
     for k in range(nc):
         x = rng.random()
+        if tier == "quick":
+            # two of the kernel shapes (start 0 / step 1 as defines; everything a run-time argument); FIXED has the others
+            x = 0.1 if x < 0.3 else 0.9
         if x < 0.2:
-            ctor = "1:%d" % rng.choice([0, 1, 2, 10, 67, -1, -5, rng.randint(-40, 200)])
+            ctor = "1:%d" % rng.choice([0, 1, 2, 10, 67, rng.randint(0, 200)])
         elif x < 0.45:
             ctor = "2:%d:%d" % (rng.randint(-30, 30), rng.randint(-30, 30))
         else:
-            s = rng.randint(-40, 40)
+            s = rng.randint(-40, 40) or 3
             e = s + rng.choice([0, 1, -1, rng.randint(-60, 60), rng.randint(-300, 300)])
             st = rng.choice([1, -1, 2, -2, 3, -3, 7, -7, 0, rng.randint(-12, 12), 100, -100])
+            if tier == "quick" and st in (0, 1, -1):
+                st = rng.choice([2, -2, 5, -3])
             ctor = "3:%d:%d:%d" % (s, e, st)
         vals = range_values(ctor)
-        ts, ti = rng.choice(tiles)
-        mode = "S" if rng.random() < 0.75 else "O"
+        y = rng.random()
+        if tier == "quick":
+            mode, (ts, ti) = ("S", (0, 0)) if y < 0.75 else (("S", (4, 3)) if y < 0.9 else ("O", (0, 0)))
+            if (ts, ti) == (4, 3) and len(vals) < 12:
+                ts, ti = 0, 0
+        else:
+            mode = "S" if y < 0.75 else "O"
+            ts, ti = rng.choice([(0, 0), (0, 0), (0, 0), (2, 2), (4, 3), (16, 1)])
+        core = (mode, ts, ti) != ("S", 0, 0) and (tier == "quick" or rng.random() < 0.7)
+        # start 0 and steps +-1 become compile-time defines: other kernels than the general range
         ops = ["len"]
-        for _ in range(rng.randint(2, 5) if tier == "quick" else rng.randint(3, 9)):
+        for _ in range(rng.randint(3, 6) if tier == "quick" else rng.randint(3, 9)):
             y = rng.random()
-            if y < 0.12:
+            if core:
+                ops.append(rng.choice(["fc", "ta", "ev:vl%d" % rng.randint(-40, 40), "rd:sum:0"]))
+            elif y < 0.12:
                 ops.append("ev:%s%d" % (rng.choice(["ve", "vl"]), rng.randint(-40, 40)))
             elif y < 0.22:
                 ops.append("so:%s%d" % (rng.choice(["ve", "vl", "m3"]), rng.randint(-2, 2)))
@@ -377,28 +445,27 @@ def range_cases(rng, tier):
                 ops.append("mp:%d_%d" % (rng.randint(-3, 3), rng.randint(-5, 5)))
             elif y < 0.66:
                 ops.append("ta")
-            elif y < 0.88:
-                k2 = rng.choice(KINDS)
+            elif y < 0.90:
+                k2 = rng.choice(KINDS if tier != "quick" else ["sum", "mul", "bxor", "min", "lor", "band"])
                 if not vals and k2 in ("band", "land", "min", "max") and rng.random() < 0.7:
                     k2 = "sum"
                 ops.append("rd:%s:%d" % (k2, rng.randint(-9, 9)))
             else:
-                k2 = rng.choice(KINDS)
-                init = IDENT[k2] if k2 in NONIDEM else (rng.choice([0, 1]) if k2 in ("lor", "land") else rng.randint(-20, 20))
+                k2 = rng.choice(["sum", "bxor", "min", "max", "lor"] if tier != "quick" else ["sum", "min"])
+                init = IDENT[k2] if k2 in IDENT else {"min": 99, "max": -99}[k2]
                 ops.append("ri:%s:%d:%d" % (k2, rng.randint(-9, 9), init))
         out.append("R %s %s %d %d - %s" % (mode, ctor, ts, ti, " ".join(ops)))
     return out
 
 
-def riter(rng, allow_tile, small):
-    x = rng.random()
-    tile = rng.choice([0, 0, 2, 3, 4]) if allow_tile else 0
-    hi = 6 if small else 14
-    if x < 0.3:
+def riter(rng, kind, tile, small):
+    """kind: n (int), r (general range: start, end, step are run-time arguments), a (index array)"""
+    hi = 5 if small else 12
+    if kind == "n":
         return "n:%d:%d" % (rng.randint(0, hi), tile)
-    if x < 0.75:
-        s = rng.randint(-6, 6)
-        st = rng.choice([1, 2, 3, -1, -2, -3, 5])
+    if kind == "r":
+        s = rng.choice([-6, -3, 2, 5, 9])                 # start 0 and |step| 1 are compile-time defines
+        st = rng.choice([2, 3, 5, -2, -3, -4])
         cnt = rng.randint(0, hi // 2 + 1)
         sgn = 1 if st > 0 else -1
         e = s + st * cnt - (sgn * rng.randint(0, abs(st) - 1) if cnt else 0)      # cnt values; the end need not be hit
@@ -407,27 +474,42 @@ def riter(rng, allow_tile, small):
     return "a:%s:%d" % (";".join(str(v) for v in vals), tile)
 
 
+# forLoop shapes: (outer kinds with tile size, inner kinds); one kernel per shape and direction of the ranges' steps
+SHAPES_QUICK = [
+    ([("n", 0), ("r", 0), ("a", 0)], []), ([("n", 0)], ["r", "a"]), ([("r", 2)], ["n"]),
+    ([("n", 2), ("r", 2)], []), ([("n", 0), ("n", 0)], ["n", "n", "n"]), ([("a", 2), ("r", 3), ("n", 2)], []),
+]
+
+
 def forloop_cases(rng, tier):
     out = []
-    # fixed shapes first: every outer/inner arity once, tiles, negative steps
     fixed = [
-        "n:5:0/", "r:10:0:-2:0/", "r:0:20:2:4/", "n:10:2/", "a:3;1;4;1;5:0/", "a:3;1;4;1;5:2/",
-        "n:3:0,r:0:4:1:0/", "n:3:0,r:5:-1:-2:0,a:7;8:0/", "n:2:0/n:3:0", "n:2:0/r:6:0:-3:0,a:1;2:0",
-        "n:2:0,n:2:0/n:2:0,n:2:0,n:2:0", "n:4:2,r:0:6:2:2/", "r:-3:9:3:2/n:2:0", "n:0:0/", "r:5:5:1:0/n:3:0",
+        # negative steps (fixes/C23-3), stepped ranges under @tile (fixes/C18-1), repeated indices, empty iterations
+        "r:10:0:-2:0/", "r:0:20:2:4/", "a:2;6;2:2,n:4:2/", "r:9:-8:-3:2/", "a:3;1;4;1;5:0/", "n:0:0/", "r:5:5:1:0/n:3:0", "n:3:0/r:6:0:-3:0",
     ]
     for f in fixed:
         out.append("F %s - - - - %s" % (rng.choice("SSO"), f))
-    nc = 10 if tier == "quick" else 300
-    for k in range(nc):
-        no = rng.choice([1, 1, 2, 2, 3])
-        ni = rng.choice([0, 0, 1, 2, 3])
-        small = no + ni >= 4
-        outer = [riter(rng, True, small) for _ in range(no)]
-        tiled = sum(1 for o in outer if not o.endswith(":0"))
-        if tiled + ni > 3:
-            ni = 3 - tiled
-        inner = [riter(rng, False, small) for _ in range(ni)]
-        out.append("F %s - - - - %s/%s" % (rng.choice("SSO"), ",".join(outer), ",".join(inner)))
+    if tier == "quick":
+        shapes = [(s, 2) for s in SHAPES_QUICK]
+    else:
+        shapes = []
+        for _ in range(70):
+            no = rng.choice([1, 1, 2, 2, 3])
+            outer = [(rng.choice("nra"), rng.choice([0, 0, 2, 3, 4])) for _ in range(no)]
+            # an untiled @outer loop cannot follow a tiled one (it would sit inside the tile's @inner loop; OKL
+            # rejects the kernel): forLoop::tile tiles every iteration, outer() none
+            first = min([k for k, (_, t) in enumerate(outer) if t] + [no])
+            outer = [(kd, t if k < first or t else rng.choice([2, 3])) for k, (kd, t) in enumerate(outer)]
+            tiled = sum(1 for (_, t) in outer if t)
+            ni = min(rng.choice([0, 0, 1, 2, 3]), 3 - tiled)
+            shapes.append(((outer, [rng.choice("nra") for _ in range(ni)]), 3))
+    for (outer, inner), reps in shapes:
+        small = len(outer) + len(inner) >= 4
+        mode = rng.choice("SSSO")
+        for _ in range(reps):
+            o = [riter(rng, k, t, small) for (k, t) in outer]
+            i = [riter(rng, k, 0, small) for k in inner]
+            out.append("F %s - - - - %s/%s" % (mode, ",".join(o), ",".join(i)))
     return out
 
 
@@ -441,25 +523,26 @@ KNOWN_CASES = [
 
 FIXED = [
     # empty arrays and ranges (fixes/C23-1)
-    "R S 1:0 0 0 - len ev:vl3 so:vl3 fi:ve0 fc ta mp:2_1 rd:sum:0 rd:mul:0 rd:lor:0 ri:min:0:7 rd:min:0",
-    "R O 3:5:5:2 4 2 - len ev:vl3 so:vl3 fi:ve0 ta rd:bxor:0",
-    "A S i 0 0 - ev:vl3 so:vl3 fi:ve0 fc mp:l1_0 mt:l1_0:3 rd:sum:2:0 rd:max:2:0 ri:max:0:-5 mx io:1 li:1 in:1 rv ca cl:0_1 len",
-    "A S l 4 2 ~ ev:vl3 so:vl3 fi:ve0 fc mp:x1_1 mt:x1_0:2 rd:sum:3:0 mn io:1 li:1 rv sl:1_0 fl:3 cc:0_-1 sc:0_0 len",
-    "A O i 0 0 1,2,3 sc:3_-1 ev:vl0 fi:ve1 mp:l1_0 len",
+    "R S 1:0 0 0 - len ev:vl3 so:vl3 fi:ve0 fc ta mp:2_1 rd:sum:0 rd:mul:0 rd:lor:0 ri:min:0:99 rd:min:0",
+    "R O 3:5:5:2 4 2 - len ev:vl3 fi:ve0 ta rd:bxor:0",
+    "A S i 0 0 - ev:vl3 so:vl3 fi:ve0 fc mp:l1_0 mt:l1_0:3 rd:sum:2:0 rd:max:2:0 ri:max:0:-7 mx io:1 li:1 in:1 rv ca cl:0_1 len",
+    "A S l 4 2 ~ ev:vl3 fi:ie0 fc mp:x1_1 mt:x1_0:2 rd:sum:3:0 mn li:1 rv sl:1_0 fl:3 cc:0_-1 sc:0_0 len",
+    "A O i 0 0 1,2,3 sc:3_-1 ev:vl0 fi:ie1 mp:x1_0 len",
     # the return buffer across element sizes (fixes/C23-2)
     "A S i 0 0 100,101,102,103,104,105,106,107,108,109 rd:lor:2:5 mx rd:lor:2:5 rd:land:2:200 rd:sum:2:0 rd:lor:2:5 ev:vl200 rd:bor:2:0 rd:land:2:200",
-    "A S l 0 0 5,6,7 mx rd:lor:2:0 rd:min:2:0 fi:ve6 rd:lor:2:0",
+    "A S l 0 0 5,6,7 mx rd:lor:2:0 rd:min:2:0 fi:ie1 rd:lor:2:0",
     # tile iterations > 1 (fixes/C18-1)
     "A S i 2 2 0,1,2,0,1,2,0,1,2,0 fc mp:x1_10 ev:vl2 mt:l2_1:4",
     "R S 1:10 2 2 - fc ta ev:vl8",
     # mapTo with the three-argument function resizes its output (fixes/C23-4)
     "A S i 0 0 1,2,3 mt:nx:5 mt:nx:3 mt:l1_0:1 mt:x1_1:7",
     # range constructors and lengths
-    "R S 3:10:0:-3 0 0 - len ta fc ev:vl11 fi:ve4 rd:sum:0 rd:min:0 mp:2_1 ri:max:0:-100",
+    "R S 3:10:0:-3 0 0 - len ta fc ev:vl11 fi:ve4 rd:sum:0 rd:min:0 mp:2_1 ri:max:0:-99",
     "R S 3:0:10:0 0 0 - len ta", "R S 3:0:10:-1 0 0 - len ta", "R S 3:10:0:1 0 0 - len ta", "R S 1:-4 0 0 - len ta fc",
-    "R S 2:3:-3 0 0 - len ta rd:max:0", "R S 3:-7:8:4 3 2 - len ta fc rd:sum:0 rd:bxor:0",
+    "R S 2:3:-3 0 0 - len ta rd:max:0", "R S 3:-7:8:4 4 3 - len ta fc rd:sum:0",
     # helpers
-    "A S i 0 0 3,1,4,1,5,9,2,6,5,3 mx mn io:5 li:5 io:7 li:7 in:9 in:8 rv sl:3_0 sr:3_0 sl:12_1 cl:2_5 cn:4 cx:4 ca dp:1,1,1,1,1,1,1,1,1,1 cc:2_3 len",
+    "A S i 0 0 3,1,4,1,5,9,2,6,5,3,1,4,1,5,9,2,6 mx mn io:5 li:5 io:7 li:7 in:9 in:8 rv sl:3_0 sr:3_0 sl:20_1 cl:2_5 cn:4 cx:4 ca "
+    "dp:1,1,1,1,1,1,1,1,1,1,1,1,1,1,1,1,1 cc:2_3 len",
 ]
 
 
@@ -494,7 +577,8 @@ def run(run, tier, seed, replay_case=None):
 
     rng = random.Random(seed * 7919 + 23)
     cases = list(C.load_corpus(PROP)) + list(FIXED) + list(KNOWN_CASES)
-    cases += grid_cases(rng, tier) + array_cases(rng, tier) + range_cases(rng, tier) + forloop_cases(rng, tier)
+    # slow kernels (forLoop includes occa.hpp) first, the cheap and numerous grid last
+    cases += forloop_cases(rng, tier) + array_cases(rng, tier) + range_cases(rng, tier) + grid_cases(rng, tier)
     if replay_case is not None:
         cases = [replay_case]
 
